@@ -657,9 +657,10 @@ Lemma asm_store_unfold pol d' s :
   do es <- map_out (asm_nvar pol d') (s_entries s);
   let nvdata := concat (map v_buf es) in
   let free := zlen nvdata in
-  let goff := (s_len s - nvar_guid_size * zlen (s_guids s)) mod 2 ^ 64 in
-  let gap := (goff - free) mod 2 ^ 64 in
-  if 2 ^ 47 <=? gap then Panic 12 else
+  let gsl := nvar_guid_size * zlen (s_guids s) in
+  if (s_len s <? gsl) || (s_len s - gsl <? free) then Err E_FIT else
+  let goff := s_len s - gsl in
+  let gap := goff - free in
   Ok (mkStore es (s_guids s) (nvdata ++ zrepeat pol gap ++ concat (rev (s_guids s))) free goff (s_len s)).
 Proof. reflexivity. Qed.
 
@@ -888,11 +889,10 @@ Proof.
   rewrite map_out_id by exact Ea. cbn [bind].
   cbn [map app] in Eb. rewrite Eb. fold (emit_entries (a_entries s)).
   rewrite zfirstn_all by lia.
-  unfold nvar_guid_size. rewrite Le.
-  rewrite (Z.mod_small (store_len s - 16 * zlen (a_table s))) by lia.
+  unfold nvar_guid_size. rewrite Le. cbv zeta.
+  replace ((store_len s <? 16 * zlen (a_table s)) ||
+           (store_len s - 16 * zlen (a_table s) <? zlen (emit_entries (a_entries s)))) with false by lia.
   replace (store_len s - 16 * zlen (a_table s) - zlen (emit_entries (a_entries s))) with (a_free s) by lia.
-  rewrite Z.mod_small by lia.
-  replace (2 ^ 47 <=? a_free s) with false by lia.
   reflexivity.
 Qed.
 
